@@ -24,9 +24,10 @@ type Point struct {
 
 // Ctx is handed to the body; all nondeterminism must go through Choose.
 type Ctx struct {
-	prefix []Point
-	pts    []Point
-	Aux    any
+	prefix   []Point
+	pts      []Point
+	Aux      any
+	Diverged string // non-empty: a replayed prefix did not meet the same decision points (uncaptured nondeterminism)
 }
 
 // NondetError is raised (as a panic) when a replayed prefix does not meet the same decision points.
@@ -44,9 +45,16 @@ func (c *Ctx) Choose(class string, n int) int {
 	if i < len(c.prefix) {
 		p := c.prefix[i]
 		if p.Class != class || p.N != n {
-			panic(NondetError{fmt.Sprintf("replay divergence at point %d: recorded %s/%d, now %s/%d", i, p.Class, p.N, class, n)})
+			// Choose may be called on goroutines of the code under test, where a panic cannot be recovered by
+			// the explorer: record the divergence (reported as an engine error, never as a verdict) and go on.
+			if c.Diverged == "" {
+				c.Diverged = fmt.Sprintf("replay divergence at point %d: recorded %s/%d, now %s/%d", i, p.Class, p.N, class, n)
+			}
+			c.prefix = c.prefix[:i]
+			ch = 0
+		} else {
+			ch = p.Choice
 		}
-		ch = p.Choice
 	}
 	c.pts = append(c.pts, Point{class, n, ch})
 	return ch
@@ -102,6 +110,7 @@ type Stats struct {
 	MaxDepth   int64
 	Capped     string // non-empty when a cap ended the run early
 	Nondet     []string
+	NondetPre  [][]Point // the prefixes whose replay diverged (for debugging the harness)
 }
 
 // ReplayOne runs the body once on a fixed choice list.
@@ -124,6 +133,13 @@ func Explore(cfg Config, body func(*Ctx)) Stats {
 	}
 	if m, err := strconv.ParseInt(os.Getenv("VERIF_MAXEXEC"), 10, 64); err == nil && m > 0 {
 		cfg.MaxExec = m // development aid; the cap is reported like any other
+	}
+	shardI, shardN := 0, 1
+	if sp := os.Getenv("VERIF_SHARD"); sp != "" {
+		fmt.Sscanf(sp, "%d/%d", &shardI, &shardN)
+		if shardN < 1 {
+			shardI, shardN = 0, 1
+		}
 	}
 	var (
 		mu      sync.Mutex
@@ -185,7 +201,14 @@ func Explore(cfg Config, body func(*Ctx)) Stats {
 				}()
 				body(c)
 			}()
-			if len(c.pts) < len(prefix) {
+			if c.Diverged != "" {
+				mu.Lock()
+				if len(st.Nondet) < 5 {
+					st.Nondet = append(st.Nondet, c.Diverged)
+					st.NondetPre = append(st.NondetPre, prefix)
+				}
+				mu.Unlock()
+			} else if len(c.pts) < len(prefix) {
 				mu.Lock()
 				if len(st.Nondet) < 5 {
 					st.Nondet = append(st.Nondet, fmt.Sprintf("replay ended after %d points, prefix had %d", len(c.pts), len(prefix)))
@@ -203,6 +226,17 @@ func Explore(cfg Config, body func(*Ctx)) Stats {
 						children = append(children, child)
 					}
 				}
+			}
+			if len(prefix) == 0 && shardN > 1 {
+				// process-level sharding: the subtrees below the root execution are dealt out round-robin in their
+				// (deterministic) generation order; every shard runs the root execution itself
+				kept := children[:0]
+				for k, ch := range children {
+					if k%shardN == shardI {
+						kept = append(kept, ch)
+					}
+				}
+				children = kept
 			}
 			mu.Lock()
 			st.Executions++
